@@ -247,6 +247,10 @@ def run(chk):
         chk.cov['trusted_base'].append('mir2c table: ' + '; '.join(probed_notes) + ' (harness/c02_insn.c mode probe)')
         chk.log('; '.join(probed_notes)[:300])
     chk.cov['trusted_base'] += ['translator tools/tr_c20_mir2c.py (symbolic execution of the printing code of out_insn; unknown text => SUnknown => theorem fails)',
+                                'translator tools/tr_c20_addr.py (symbolic execution of the MIR_OP_MEM case of out_op for every address form and memory type, '
+                                'cross-checked against the text the checked tree prints for probe operands; unreadable text => AUnknown / missing row => theorem fails)',
+                                'C20/AddrPrint.v aeval: the displacement constant typed int / long / __int128 as gcc reads it, int64_t register variables, '
+                                '+ * << at the common type with wrap-around, integer -> pointer conversion = low 64 bits',
                                 'Mir/CExpr.v: C11 typing + two\'s-complement machine semantics, GCC __builtin_*_overflow as documented by GCC',
                                 'gcc 12 compiling the emitted C (-O1; thorough: -O0/-O2 and UBSan); extraction: ExtrOcamlBasic only',
                                 'harness/c02_insn.c (mir2c + dlopen runner), harness/c20_mod.c, ocaml/driver_c02.ml, ocaml/driver_c20.ml']
